@@ -684,9 +684,20 @@ def ret_table(prog, fn, alias=None, slice_param=None, only_ok=False, quantified=
                     sy.set_path(path[1])
                     defs = sy.var_defs(0) or []
                     vals = []
+                    split_map = None
                     for d in defs:
                         p = value_poly(sy, d)
                         vals.append(str(p) if p is not None else sy.name(d))
+                        # `return x.map(f)` / `x.map_err(g)` with x a Result whose variant this path does not know: the two
+                        # rows `x is Err => Err(e)` and `x is Ok => Ok(f(v))` of the `match` / `?` form
+                        from .terms import strip as _strip2, short as _short2, apply_closure as _apply2
+                        ds_ = _strip2(d)
+                        if len(defs) == 1 and ds_[0] == "call" and _short2(ds_[1]) == "Result::<T, E>::map" and len(ds_[2]) == 2 and sy.known_result(ds_[2][0]) is None:
+                            cl_ = _strip2(ds_[2][1])
+                            ap_ = _apply2(prog, cl_, (("field", ("downcast", ds_[2][0], "Ok"), 0),)) if cl_[0] == "aggr" else None
+                            if ap_ is not None:
+                                xn_ = sy.name(ds_[2][0])
+                                split_map = [("%s is Err" % xn_, "Err{(%s as Err).0}" % xn_), ("%s is Ok" % xn_, "Ok{%s}" % sy.arg_name(ap_))]
                     sy.set_path(None)
                 finally:
                     if env:
@@ -694,11 +705,13 @@ def ret_table(prog, fn, alias=None, slice_param=None, only_ok=False, quantified=
                 val0 = "|".join(sorted(vals))
                 ats0 = [atom_str(a) for a in ats]
                 rows_ = [(ats0, val0)]
+                if split_map is not None:
+                    rows_ = [(ats0 + [a_], v_) for a_, v_ in split_map]
                 if quantified:
                     from . import quant as _quant
                     if rws is None:
                         rws = _quant.row_rewrites(prog, an, sy)
-                    rows_ = _quant.rewrite_rows(rws, ats0, val0)
+                    rows_ = [r2 for (a0_, v0_) in rows_ for r2 in _quant.rewrite_rows(rws, a0_, v0_)]
                 for ats1, val1 in rows_:
                     val = apply_alias(val1, alias)
                     if only_ok and not val.startswith("Ok{"):
